@@ -76,10 +76,16 @@ def main_exit(path, command):
         return ('raised', type(e).__name__)
 
 
+# the directory the module lives in: any legal directory name (braces, blanks, per cent signs, quotes, non-ASCII letters)
+SUBDIRS = ['', 'plain', 'proj{v2}', 'with space', 'build{}tmp', '100%s done', 'caf\xe9', "it's", '{0}']
+
+
 def _worker(job):
     tmp, idx, kinds, layout, verbose = job
     src, ids = modgen.module_source(kinds, layout)
-    path = os.path.join(tmp, 'xdverif_c10_m%d.py' % idx)
+    subdir = SUBDIRS[(idx // 3) % len(SUBDIRS)]
+    os.makedirs(os.path.join(tmp, subdir), exist_ok=True)
+    path = os.path.join(tmp, subdir, 'xdverif_c10_m%d.py' % idx)
     with open(path, 'w') as f:
         f.write(src)
     # queries must not have side effects: ask every doctest whether the pytest plugin would skip it (as a pytest session earlier
@@ -100,7 +106,7 @@ def _worker(job):
         results.append((cmd, obs, problems, ex))
     for k in [k for k in sys.modules if k.startswith('xdverif_c10_')]:
         del sys.modules[k]
-    return (kinds, layout, ids, src, results)
+    return (kinds, layout + ' @dir=' + subdir, ids, src, results)
 
 
 def run(ctx):
@@ -156,7 +162,7 @@ def run(ctx):
             ctx.count('command:' + ('name' if cmd not in ('all', 'list') else cmd))
             if len(set(kinds)) > 1:
                 ctx.nontrivial += 1
-            payload = {'module_source': src, 'command': cmd, 'doctests': ids, 'observed': obs}
+            payload = {'module_source': src, 'command': cmd, 'doctests': ids, 'observed': obs, 'layout': layout}
             if obs is None:
                 problems = list(problems)
             elif cmd == 'list':
@@ -257,9 +263,13 @@ def replay(path):
     d = json.load(open(path))
     tmp = tempfile.mkdtemp(prefix='xdverif_c10r_')
     try:
-        p = os.path.join(tmp, 'xdverif_c10_replay.py')
+        subdir = d.get('layout', '').split(' @dir=')[1] if ' @dir=' in d.get('layout', '') else ''
+        os.makedirs(os.path.join(tmp, subdir), exist_ok=True)
+        p = os.path.join(tmp, subdir, 'xdverif_c10_replay.py')
         open(p, 'w').write(d['module_source'])
         obs, problems = run_module(p, d['doctests'], d['command'], 0)
+        obs2, problems2 = run_module(p, d['doctests'], d['command'], 2)
+        problems = list(problems) + [x for x in problems2 if x not in problems]
         print('command=%r observed=%r problems=%r (recorded: %s)' % (d['command'], obs, problems, d['what']))
         kind_of = {u: k for u, _, k in d['doctests']}
         if d['command'] == 'all':
